@@ -823,6 +823,167 @@ pub fn check_new_keys(case: &NewKeysCase) -> CaseResult {
     Ok(classes)
 }
 
+/// the ways ordinary code reaches the bridge: the metrics facade macros under a local recorder
+#[derive(Clone, Debug, Serialize, Deserialize)]
+pub struct FacadeCase {
+    /// 0 = capture_metrics, 1 = capture_metrics_async (updates spread over several polls), 2 =
+    /// metrics::with_local_recorder(&clone of the recorder), 3 = with_local_recorder(&MetricRecorder)
+    pub ctor: u8,
+    /// (kind 0 counter / 1 histogram / 2 gauge, label set, value)
+    pub updates: Vec<(u8, u8, u32)>,
+    pub unit: u8,
+}
+
+pub fn check_facade(case: &FacadeCase) -> CaseResult {
+    use metrique_metricsrs::{ParametricRecorder, capture};
+    let (unit, unit_name) = UNITS[1 + (case.unit as usize % (UNITS.len() - 1))];
+    let apply = |u: &(u8, u8, u32)| {
+        let ls = LABELSETS[u.1 as usize % 3];
+        let labels: Vec<Label> = ls.iter().map(|(k, v)| Label::new(*k, *v)).collect();
+        match u.0 % 3 {
+            0 => metrics_024::counter!(NAMES[0], labels).increment(u.2 as u64),
+            1 => metrics_024::histogram!(NAMES[1], labels).record((u.2 % 100_000) as f64),
+            _ => metrics_024::gauge!(NAMES[2], labels).set(u.2 as f64),
+        }
+    };
+    let describe = || {
+        metrics_024::describe_counter!(NAMES[0], unit.unwrap(), "d");
+    };
+    let log = match case.ctor % 4 {
+        0 => {
+            let (entry, ()) = no_panic("capture-metrics", || {
+                capture::capture_metrics::<dyn metrics_024::Recorder, _, _>(|| {
+                    describe();
+                    case.updates.iter().for_each(apply);
+                })
+            })?;
+            record(&entry)
+        }
+        1 => {
+            let (entry, ()) = no_panic("capture-metrics", || {
+                crate::bq::block_on_timeout(
+                    capture::capture_metrics_async::<dyn metrics_024::Recorder, _, _>(async {
+                        describe();
+                        for (i, u) in case.updates.iter().enumerate() {
+                            apply(u);
+                            if i % 2 == 0 {
+                                // a later update happens on a later poll of the wrapped future
+                                YieldOnce(false).await;
+                            }
+                        }
+                    }),
+                    Duration::from_secs(20),
+                )
+                .expect("capture future completes")
+            })?;
+            record(&entry)
+        }
+        2 => {
+            // (SharedRecorder::new is not callable for `dyn Recorder`: its impl block lacks ?Sized)
+            let rec: Rec24 = MetricRecorder::new_with_emit_zero_counters(false);
+            let handle = rec.clone();
+            no_panic("with-local-recorder", || {
+                metrics_024::with_local_recorder(&handle, || {
+                    describe();
+                    case.updates.iter().for_each(apply);
+                })
+            })?;
+            record(&rec.readout())
+        }
+        _ => {
+            let rec: Rec24 = MetricRecorder::new();
+            no_panic("with-local-recorder", || {
+                rec.with_local_recorder(|| {
+                    describe();
+                    case.updates.iter().for_each(apply);
+                })
+            })?;
+            record(&rec.readout())
+        }
+    };
+    let kinds: BTreeMap<String, u8> = [(NAMES[0].to_string(), 0u8), (NAMES[1].to_string(), 1), (NAMES[2].to_string(), 2)]
+        .into_iter()
+        .collect();
+    let r = decode(&log, &kinds)?;
+    let dims = |l: u8| -> Vec<(String, String)> { LABELSETS[l as usize % 3].iter().map(|(k, v)| (k.to_string(), v.to_string())).collect() };
+    let mut counters: BTreeMap<Vec<(String, String)>, u64> = BTreeMap::new();
+    let mut hist: BTreeMap<Vec<(String, String)>, u64> = BTreeMap::new();
+    let mut gauges: BTreeMap<Vec<(String, String)>, f64> = BTreeMap::new();
+    for u in &case.updates {
+        match u.0 % 3 {
+            0 => *counters.entry(dims(u.1)).or_insert(0) += u.2 as u64,
+            1 => *hist.entry(dims(u.1)).or_insert(0) += 1,
+            _ => {
+                gauges.insert(dims(u.1), u.2 as f64);
+            }
+        }
+    }
+    for (d, want) in &counters {
+        let got = r.counters.get(&(NAMES[0].to_string(), d.clone())).copied().unwrap_or(0);
+        vensure!(
+            got == *want,
+            if got < *want { "bridge:counter-increments-lost" } else { "bridge:counter-increments-double-counted" },
+            "facade path {}: counter {d:?} increments sum to {want}, the readout reports {got}",
+            case.ctor % 4
+        );
+    }
+    for (d, want) in &hist {
+        let got: u64 = r.histograms.get(&(NAMES[1].to_string(), d.clone())).map(|v| v.iter().map(|x| x.1).sum()).unwrap_or(0);
+        vensure!(
+            got == *want,
+            if got < *want { "bridge:histogram-samples-lost" } else { "bridge:histogram-samples-double-counted" },
+            "facade path {}: histogram {d:?}: {want} samples recorded, {got} reported",
+            case.ctor % 4
+        );
+    }
+    for (d, want) in &gauges {
+        let got = r.gauges.get(&(NAMES[2].to_string(), d.clone())).copied();
+        vensure!(got == Some(*want), "bridge:gauge-not-last-value", "facade path {}: gauge {d:?} last set to {want}, reported {got:?}", case.ctor % 4);
+    }
+    vensure!(
+        r.counters.keys().all(|k| counters.contains_key(&k.1)) && r.histograms.keys().all(|k| hist.contains_key(&k.1)) && r.gauges.keys().all(|k| gauges.contains_key(&k.1)),
+        "bridge:unknown-name",
+        "the readout reports keys that were never updated: {:?} {:?} {:?}",
+        r.counters.keys().collect::<Vec<_>>(),
+        r.histograms.keys().collect::<Vec<_>>(),
+        r.gauges.keys().collect::<Vec<_>>()
+    );
+    // (a counter whose increments sum to zero is not written at all unless emit_zero_counters)
+    if r.counters.keys().any(|k| k.0 == NAMES[0]) {
+        vensure!(
+            r.units.get(NAMES[0]).map(|s| s.as_str()) == Some(unit_name),
+            "bridge:described-unit-missing",
+            "describe_counter!({}, {unit_name}) through the facade: the readout wrote unit {:?}",
+            NAMES[0],
+            r.units.get(NAMES[0])
+        );
+    }
+    let mut classes: Classes = vec![match case.ctor % 4 {
+        0 => "capture-metrics",
+        1 => "capture-metrics-async",
+        2 => "facade-with-local-recorder-over-a-clone",
+        _ => "with-local-recorder",
+    }];
+    if case.updates.len() >= 4 && counters.len() >= 2 {
+        classes.push("nt");
+    }
+    Ok(classes)
+}
+
+struct YieldOnce(bool);
+impl std::future::Future for YieldOnce {
+    type Output = ();
+    fn poll(mut self: std::pin::Pin<&mut Self>, cx: &mut std::task::Context<'_>) -> std::task::Poll<()> {
+        if self.0 {
+            std::task::Poll::Ready(())
+        } else {
+            self.0 = true;
+            cx.waker().wake_by_ref();
+            std::task::Poll::Pending
+        }
+    }
+}
+
 pub fn run(ctx: &mut Ctx) {
     ctx.assume("histogram samples are in [0, +inf) (negative / NaN samples are outside the bridge's documented u32 domain); the recorded integer is the sample truncated and clamped to u32::MAX");
     ctx.assume("one writer thread per gauge key so that 'last value set' is defined; units are asserted on readouts taken at quiescent points (describe races with a concurrent readout by nature)");
@@ -923,5 +1084,19 @@ pub fn run(ctx: &mut Ctx) {
             (any::<u16>(), any::<u16>(), any::<u8>(), any::<u8>(), any::<u8>()).prop_map(|(idle, new_keys, kind, unit, updaters)| NewKeysCase { idle, new_keys, kind, unit, updaters })
         },
         check_new_keys,
+    );
+    ctx.explore(
+        SubCfg::new(
+            "c20-capture-and-facade",
+            "0-30 updates (counter increments, histogram samples, gauge sets over 3 label sets) made through the metrics facade macros (static names, per-call label vectors) under capture_metrics, capture_metrics_async (updates spread over several polls), metrics::with_local_recorder(&clone of the MetricRecorder) and MetricRecorder::with_local_recorder; the counter is described through describe_counter!. Oracle: one readout reports exactly the increments, samples and last gauge values per key, nothing else, and the described unit. Non-trivial = >= 4 updates over >= 2 counter keys",
+            if q { 3_000 } else { 60_000 },
+        )
+        .threads(ctx.tier.pick(4, 8))
+        .mandatory(&["capture-metrics", "capture-metrics-async", "facade-with-local-recorder-over-a-clone", "with-local-recorder"]),
+        || {
+            (any::<u8>(), prop::collection::vec((0u8..3, 0u8..3, prop_oneof![0u32..5, any::<u32>()]), 0..30), any::<u8>())
+                .prop_map(|(ctor, updates, unit)| FacadeCase { ctor, updates, unit })
+        },
+        check_facade,
     );
 }
